@@ -665,13 +665,13 @@ func (repo *GoGitRepo) StoreSignedCommit(treeHash Hash, signKey *openpgp.Entity,
 
 	commit := object.Commit{
 		Author: object.Signature{
-			Name:  cfg.Author.Name,
-			Email: cfg.Author.Email,
+			Name:  cleanIdent(cfg.Author.Name),
+			Email: cleanIdent(cfg.Author.Email),
 			When:  time.Now(),
 		},
 		Committer: object.Signature{
-			Name:  cfg.Committer.Name,
-			Email: cfg.Committer.Email,
+			Name:  cleanIdent(cfg.Committer.Name),
+			Email: cleanIdent(cfg.Committer.Email),
 			When:  time.Now(),
 		},
 		Message:  "",
@@ -715,6 +715,23 @@ func (repo *GoGitRepo) StoreSignedCommit(treeHash Hash, signKey *openpgp.Entity,
 	}
 
 	return Hash(hash.String()), nil
+}
+
+// cleanIdent removes from a configured name or email what git itself removes before it writes
+// them in a commit (ident.c: strbuf_addstr_without_crud): angle brackets and newlines anywhere,
+// and the "crud" around. go-git writes the strings as they are, and a '<', '>' or newline in
+// them makes a commit that git fsck refuses.
+func cleanIdent(s string) string {
+	crud := func(r rune) bool {
+		return r <= 32 || strings.ContainsRune(".,:;<>\"\\'", r)
+	}
+	s = strings.TrimFunc(s, crud)
+	return strings.Map(func(r rune) rune {
+		if r == '<' || r == '>' || r == '\n' {
+			return -1
+		}
+		return r
+	}, s)
 }
 
 func (repo *GoGitRepo) ResolveRef(ref string) (Hash, error) {
